@@ -69,6 +69,11 @@ func init() {
 		over, w := p.GameOver()
 		return fmt.Sprintf("%d %d %d %d %d %d", p.ToMove(), cw, cb, p.VerifFlatsWinner(), b2i(over), w)
 	}
+	opTable["fn.dims"] = func(s *Session, a []string) string {
+		c := bitboard.Precompute(uint(atoi(a[0])))
+		w, h := bitboard.Dimensions(&c, atou(a[1]))
+		return fmt.Sprintf("%d %d", w, h)
+	}
 	opTable["fn.hash"] = func(s *Session, a []string) string {
 		return strconv.FormatUint(decPos(a[0]).Hash(), 10)
 	}
@@ -385,6 +390,15 @@ func genFNEVAL(c *Ctx) {
 			c.Count("evalterm:pos")
 		}
 		c.Count("evalwinner=" + c.Emit("fn.evalwinner "+tok))
+		// Dimensions of a non-empty set inside the board (outside it the Go loop does not end), and of 0
+		mask := uint64(1)<<uint(size*size) - 1
+		bits := edgeU64(c.R) & mask
+		if r := p.VerifRaw(); c.R.Chance(1, 2) && len(r.WG)+len(r.BG) > 0 {
+			gs := append(append([]uint64{}, r.WG...), r.BG...)
+			bits = gs[c.R.Intn(len(gs))]
+			size = p.Size()
+		}
+		c.Emit(fmt.Sprintf("fn.dims %d %d", size, bits))
 	}
 }
 
